@@ -589,7 +589,7 @@ func (r *runner) checkLeaf(vc *viewCtx, leaves []Leaf, i int, when string) leafO
 }
 
 // checkTree asks both search paths for a tree over already judged leaves.
-func (r *runner) checkTree(vc *viewCtx, leaves []Leaf, obs []leafObs, tree *Pred, when string) (bitset, *predCase) {
+func (r *runner) checkTree(vc *viewCtx, leaves []Leaf, obs []leafObs, tree *Pred, when string) (bitset, *predCase, bool) {
 	c, v := r.c, vc.v
 	used := tree.Leaves(nil)
 	wantSets := make([]bitset, len(leaves))
@@ -607,6 +607,7 @@ func (r *runner) checkTree(vc *viewCtx, leaves []Leaf, obs []leafObs, tree *Pred
 		}
 	}
 	base := predCase{M: v.M, Leaves: sub, Tree: remapTree(tree, remap)}
+	showAgrees := false
 	c.LogInput(map[string]any{"history": r.h.ID, "m": v.M, "pred": base})
 	for _, path := range searchPaths {
 		if r.replay != nil && r.replay.Path != "" && r.replay.Path != path {
@@ -632,6 +633,9 @@ func (r *runner) checkTree(vc *viewCtx, leaves []Leaf, obs []leafObs, tree *Pred
 		}
 		if res.set.eq(want) {
 			c.Count("trees-agree", 1)
+			if path == "show" {
+				showAgrees = true
+			}
 			if r.replay != nil {
 				fmt.Printf("REPLAY: %s WHERE %s on %q agrees with brute force (%d series)\n", path, text, v.M, want.count())
 			}
@@ -652,7 +656,7 @@ func (r *runner) checkTree(vc *viewCtx, leaves []Leaf, obs []leafObs, tree *Pred
 			path, text, v.M, when, res.set.count(), want.count()), &pc,
 			map[string]any{"query": text, "expected": r.describe(v, want, 12), "got": r.describe(v, res.set, 12)})
 	}
-	return want, &base
+	return want, &base, showAgrees
 }
 
 // predicatePhase evaluates n predicates over the live series: every generated leaf on
@@ -686,8 +690,8 @@ func (r *runner) predicatePhase(rng *rand.Rand, n int, when string) {
 			if tree.Kind == "leaf" {
 				tree = &Pred{Kind: pick(rng, []string{"and", "or"}), L: tree, R: &Pred{Kind: "leaf", Leaf: rng.IntN(nLeaves)}}
 			}
-			want, pc := r.checkTree(vc, leaves, obs, tree, when)
-			if t%5 == 0 && !r.anyBad(tree, obs) {
+			want, pc, showAgrees := r.checkTree(vc, leaves, obs, tree, when)
+			if t%5 == 0 && showAgrees {
 				r.checkCondListing(v, tree, leaves, want, pc)
 			}
 		}
@@ -956,7 +960,7 @@ func (r *runner) replayPred(pc *predCase) {
 			obs[i] = r.checkLeaf(vc, pc.Leaves, i, "replay")
 		}
 		if pc.Tree != nil {
-			r.checkTree(vc, pc.Leaves, obs, pc.Tree, "replay")
+			_, _, _ = r.checkTree(vc, pc.Leaves, obs, pc.Tree, "replay")
 		}
 		return
 	}
